@@ -44,6 +44,30 @@ add("C18","exploration","model-based property testing of HNSW histories + refere
 add("C19","exploration","property-based testing of every bundled algorithm against brute-force definitions on generated multigraphs",
     "Directed multigraphs (self-loops, parallel/anti-parallel edges, components, weight regimes) x all sources/targets: shortest paths (4 algorithms agree, minimal, paths real), components, topological sort, MST (Kruskal/Prim), max-flow = min-cut, min-cost flow, traversals, triangles/k-core/bridges/articulation, PageRank/closeness/betweenness, ShortestPathOperator, community partitions.",
     "Conventions (undirected reading, default weight, simple-graph bridges) are adopted from the code's documentation.","DESIGN.md §4 C19")
+add("C07","exploration","round-trip / differential property testing of export-import, save-open, to_memory + exhaustive truncations and bit flips of small snapshots judged by an independent format reader (worker process)",
+    "Graphs reached by generated mutation histories (sparse ids, every value type, committed session transactions) are exported/imported, saved/opened and copied to memory: dumps equal the model and the source, a battery of queries answers the same, export is deterministic, the source is unchanged, next ids are fresh. Hostile bytes (every truncation, every single-bit flip of 20+ small snapshots; generated surgery on lengths/ids/discriminants, splices, deep nesting) are imported in a child process: Ok exactly when an independent reader of the byte format accepts them, never a panic/abort/hang.",
+    "Trusts the harness' own snapshot-format reader; two import-robustness defects (unchecked declared string length, unbounded nesting) are listed findings.","DESIGN.md §4 C07")
+add("C09","exploration","differential property testing: every generated (graph, query) under all 8 optimizer switch sets x 3 statistics states x factorized on/off",
+    "The pipeline is assembled from public pieces (translate -> bind -> optimize -> plan -> execute); every distinct optimized plan is executed flat and factorized and must return the same multiset (same sequence on ORDER BY keys) as the unoptimized plan; read parts of MATCH..SET/DELETE run on per-execution rebuilt databases and the resulting database dumps are compared.",
+    "Join reordering and projection push-down are inert on every translated plan in this tree (no front end emits join conditions), so they are exercised but cannot change a plan; GQL and Cypher only.","DESIGN.md §4 C09")
+add("C10","exploration","differential property testing across physical configurations (index subsets, min/max summaries live/inert, index/range shortcuts reachable/blocked, factorized on/off) and plan-cache histories",
+    "For one graph state every physical configuration must return the same multiset; session histories (execute, mutate, create/drop index, same text through another front end) must answer like a cold session on an identically rebuilt database.",
+    "Relies on identically rebuilt databases answering identically.","DESIGN.md §4 C10")
+add("C12","exploration","grammar-aware fuzzing of all five front ends in a child worker process (RLIMIT_AS, CPU-time hang rule) + libFuzzer targets for the thorough tier",
+    "Per language: valid skeletons, token-level mutation, every char-boundary truncation (exhaustive), nesting to depth 2000, numeric extremes, arithmetic/SKIP/LIMIT/range templates over extreme operands, non-ASCII/control characters, unterminated openers; parameter maps of every value type; each case against an empty and a small database in a worker: the call must return Ok or Err, never panic, abort, overflow the stack, exhaust memory or hang.",
+    "Work that is huge by definition (variable-length bounds > 64 on the cyclic small graph, > 300 chained clauses) is excluded; a hang is 20 CPU-seconds on one request.","DESIGN.md §4 C12")
+add("C13","exploration","model-based property testing of RdfStore histories against a triple set + differential testing of SPARQL against an independent algebra evaluator + TripleRing vs set",
+    "Store histories (insert/remove/clear/transactional ops, object index on/off): all 8 pattern shapes, contains/len/subjects/predicates/objects/find_with_pending equal the set after every step. Generated SPARQL (BGP joins, OPTIONAL, FILTER, UNION, DISTINCT, ORDER/LIMIT/OFFSET, COUNT/GROUP BY, INSERT/DELETE DATA) against a SPARQL 1.1 algebra evaluator on full terms; TripleRing answers = set answers.",
+    "Result rows are compared on lexical form only (all the engine exposes); FILTER outcomes that are operator-table type errors are not judged.","DESIGN.md §4 C13")
+add("C14","exploration","model-based stateful property testing of LpgStore / ChunkedAdjacency / GrafeoDB histories with a full cross-check battery after every step",
+    "Histories of 1-400 ops (with/without backward adjacency, index create/drop, statistics, bursts across the 64-entry chunk, deletes with live edges, re-adds) against an abstract model: label lookups, adjacency both directions, degrees, index vs scan, min/max pruning never hides a match, counts, deleted ids nowhere, validate(); bare ChunkedAdjacency with compaction/freezing against a multiset model.",
+    "delete_node does not cascade (documented); set_*_property on a deleted id is a listed finding.","DESIGN.md §4 C14")
+add("C17","exploration","differential property testing of operator chains across pull / push / parallel / spilling configurations against a naive reference; explicit worker assignments for the merge functions",
+    "Generated tables (0..4200 rows quick, chunk and morsel boundaries, duplicate/NULL keys) x operator chains x {pull, push Pipeline, ParallelPipeline 1-16 workers} x chunk splits x spill thresholds: every configuration equals the reference as a multiset (sequence on sort keys); k-way merge / partial aggregates / distinct sets merged from generated partitions equal their sequential counterparts; spill directory empty after cleanup/drop.",
+    "OS-level interleavings inside ParallelPipeline are sampled by repetition (3x), not enumerated; mixed-type sort keys are a listed finding (shared with C16).","DESIGN.md §4 C17")
+add("C20","exploration","schedule-controlled concurrency testing (generated programs + generated schedules at instrumented yield points) with a linearizability oracle; plus free-running threads",
+    "2-3 logical threads x 1-3 generated ops on shared entities of LpgStore / RdfStore / BufferManager run under a harness-owned scheduler (hooks H2/H3: yield points between the critical sections of each operation); every return value and the final state (C14's battery / all RDF pattern shapes / allocation accounting) must be explained by some sequential order of the operations (all orders enumerated). Free mode: real threads on one GrafeoDB: ids unique, acknowledged creations visible, derived structures agree with primary data, commit epochs unique, no panic or deadlock.",
+    "Only interleavings at the instrumented yield points are owned by the harness; DETACH DELETE is two store calls and is not treated as one atomic operation.","DESIGN.md §4 C20")
 NOT_BUILT = {}
 
 def main():
